@@ -11,7 +11,7 @@ from pathlib import Path
 
 from . import repo_common as rc
 from . import c15
-from .. import fsgate, harness, repodrv, tlc
+from .. import fsgate, harness, linefuzz, repodrv, tlc
 
 LEVEL = 'model_checking'
 CLAUSES = c15.CLAUSES + ['P:Safety', 'P:CleanExact', 'P:CommitComplete', 'P:SnapshotFaithful']
@@ -76,7 +76,7 @@ def racing_phase(sess, cache, desc, rounds):
     for i in range(rounds):
         shutil.rmtree(cache, ignore_errors=True)
         us = [r.choice(sess.users), r.choice(sess.users)]
-        with fsgate.Rendezvous(cache) as gate:
+        with fsgate.Rendezvous(cache) as gate, linefuzz.fuzz(r.randrange(1 << 30), linefuzz.LOADERS + linefuzz.RESTORE, q=0.1):
             sess.ctx = 'two clients, one empty cache directory, simultaneous cache writes'
             os_ = harness.run_parallel([(lambda u=us[0]: sess.restore(u)), (lambda u=us[1]: sess.restore(u))])
             sess.ctx = None
